@@ -10,9 +10,10 @@ IMPORTS = ["M_Wrappers", "M_Crop", "M_SeqCrop", "C14_corr"]
 MODEL_FILES = ["Model/M_SeqCrop.v", "Model/M_Crop.v"]
 DEPS = ["pyindex"]
 RULE = ("cases = (sequence of 1-4 cubes of 1-3 dims whose block-diagonal integer probe WCS are identical or shifted by whole "
-        "pixels relative to one another, 1-4 points valid for cube crop: None per independent group, single-pixel extents, "
-        "sub-pixel offsets k/8; crop (high level) and crop_by_values; wcses in 'wcs' | 'combined_wcs' | 'extra_coords' | "
-        "explicit list); distinct by key; non-trivial = some axis narrowed")
+        "pixels relative to one another, 1-4 points valid for cube crop: None per independent group or for ALL components, "
+        "single-pixel extents, sub-pixel offsets k/8; crop (high level) and crop_by_values; wcses = None | 'wcs' | the cubes' "
+        "own wcs as a list | a list of WCS that differ from the cubes' own | 'combined_wcs' | and, on cubes carrying 1-2 "
+        "lookup-table extra coords, 'extra_coords' | 'combined_wcs' (by the direct oracle)); distinct by key")
 ASSUMPTIONS = ["per-cube boxes are C04's subject (M_Crop); here the union over cubes and the use of the per-cube helpers is modelled"]
 
 
@@ -43,58 +44,109 @@ def gen(tier, rng):
             for q in pts:
                 q[p] = pts[0][p]
         form = rng.choice(["values", "values", "objects"])
-        wcses = rng.choice(["wcs", "wcs", None, "list", "combined_wcs"])
-        key = f"{shape}|{A}|{b}|{shifts}|{pts}|{none_groups}|{form}|{wcses}"
-        cases.append({"key": key, "stratum": f"{ncube}cubes-{form}", "shape": shape, "A": A, "b": b, "shifts": shifts,
+        tabs = []
+        if rng.random() < 0.3:
+            for ax in rng.sample(range(nd), rng.choice([1, min(2, nd)])):
+                tabs.append([ax, rng.choice([1, 2, 3]), rng.randrange(0, 5)])      # array axis, slope, intercept on cube 0
+        wcses = rng.choice(["extra_coords", "combined_wcs", "combined_wcs"]) if tabs else rng.choice(["wcs", "wcs", None, "list", "foreign", "combined_wcs"])
+        own_shifts = [[rng.choice([0, 1, -2]) for _ in range(nd)] for _ in range(ncube)] if wcses == "foreign" else None
+        all_none = rng.random() < 0.04
+        none_tabs = [t for t in range(len(tabs)) if rng.random() < 0.25]
+        if wcses == "extra_coords" and len(none_tabs) == len(tabs) and not all_none:
+            none_tabs = none_tabs[1:]
+        key = f"{shape}|{A}|{b}|{shifts}|{pts}|{none_groups}|{form}|{wcses}|{tabs}|{own_shifts}|{all_none}|{none_tabs}"
+        cases.append({"key": key, "stratum": f"{ncube}cubes-{form}-{wcses}", "shape": shape, "A": A, "b": b, "shifts": shifts,
                       "groups": groups, "none_groups": none_groups, "pts": pts, "form": form, "wcses": wcses,
+                      "tabs": tabs, "own_shifts": own_shifts, "all_none": all_none, "none_tabs": none_tabs,
                       "nontrivial": True,
                       "show": {"shape": shape, "A": A, "b": b, "pixel_shift_of_each_cube": shifts, "pixel_positions_of_points": pts,
-                               "groups_left_None": none_groups, "form": form, "wcses": wcses}})
+                               "groups_left_None": "ALL" if all_none else none_groups, "form": form, "wcses": wcses,
+                               "extra_coords(axis,slope,intercept)": tabs, "tables_left_None": none_tabs,
+                               "cubes_own_wcs_shifts_when_wcses_is_a_foreign_list": own_shifts}})
     return cases
 
 
-def _cube_b(case, k):
+def _cube_b(case, k, shifts=None):
     """world offset of cube k: its wcs is the first cube's shifted by shifts[k] pixels: w = A (p + s) + b"""
     A = np.array(case["A"])
-    return (A @ np.array(case["shifts"][k]) + np.array(case["b"])).tolist()
+    return (A @ np.array((shifts or case["shifts"])[k]) + np.array(case["b"])).tolist()
 
 
 def run(case):
     import astropy.units as u
     from ndcube import NDCube, NDCubeSequence
+    from astropy.wcs.wcsapi import HighLevelWCSWrapper
     from astropy.wcs.wcsapi.high_level_api import values_to_high_level_objects
+    from astropy.wcs.utils import _split_matrix
     shape = tuple(case["shape"])
     nd = len(shape)
+    mode = case["wcses"]
+    tabs = case.get("tabs") or []
     cubes = []
     for k in range(len(case["shifts"])):
-        w = make_probe(case["A"], _cube_b(case, k), tw=list(range(nd)), tp=list(range(nd)))
-        cubes.append(NDCube(np.arange(int(np.prod(shape))).reshape(shape) + 1000 * k, wcs=w))
+        w = make_probe(case["A"], _cube_b(case, k, case.get("own_shifts")), tw=list(range(nd)), tp=list(range(nd)))
+        cube = NDCube(np.arange(int(np.prod(shape))).reshape(shape) + 1000 * k, wcs=w)
+        for t, (ax, slope, icpt) in enumerate(tabs):
+            sk = case["shifts"][k][nd - 1 - ax]
+            cube.extra_coords.add(f"e{t}", ax, (slope * (np.arange(shape[ax]) + sk) + icpt) * u.m, physical_types=f"custom:e{t}")
+        cubes.append(cube)
     seq = NDCubeSequence(cubes)
-    ll0 = cubes[0].wcs.low_level_wcs
+    # the description the points are expressed in, for cube 0
+    target = make_probe(case["A"], _cube_b(case, 0), tw=list(range(nd)), tp=list(range(nd)))
     pix_pts = [[Fr(*v) for v in p] for p in case["pts"]]
-    world_pts = [c14._vec(ll0.pixel_to_world_values(*[float(x) for x in p]), nd) for p in pix_pts]
+    none_pix = set()                       # pixel axes whose coordinate group is left None
+    for g in case["groups"]:
+        if case.get("all_none") or g in case["none_groups"]:
+            none_pix |= set(g)
+    wcs_world = [c14._vec(target.pixel_to_world_values(*[float(x) for x in p]), nd) for p in pix_pts]
     none_w = set()
-    from astropy.wcs.utils import _split_matrix
-    for pi, wi in _split_matrix(np.asarray(ll0.axis_correlation_matrix)):
-        if any({int(x) for x in pi} <= set(g) for g in case["none_groups"]):
+    for pi, wi in _split_matrix(np.asarray(target.axis_correlation_matrix)):
+        if {int(x) for x in pi} <= none_pix:
             none_w |= {int(x) for x in wi}
     use_objects = case["form"] == "objects"
-    if use_objects:
-        pts = []
-        for w in world_pts:
-            objs = values_to_high_level_objects(*[float(x) for x in w], low_level_wcs=ll0)
-            pts.append([None if i in none_w else o for i, o in enumerate(objs)])
+
+    def wcs_part(w):
+        if use_objects:
+            objs = values_to_high_level_objects(*[float(x) for x in w], low_level_wcs=target)
+            return [None if i in none_w else o for i, o in enumerate(objs)]
+        return [None if i in none_w else float(x) * u.m for i, x in enumerate(w)]
+
+    # ExtraCoords keeps its tables sorted by array axis? ask the first cube for the order of its world axes
+    tab_order = []
+    if tabs:
+        names = list(cubes[0].extra_coords.wcs.low_level_wcs.world_axis_physical_types)
+        tab_order = [int(nm.split("custom:e")[1]) for nm in names]
+
+    def tab_part(p):
+        out = []
+        for t in tab_order:
+            ax, slope, icpt = tabs[t]
+            px = nd - 1 - ax
+            none = case.get("all_none") or (t in case["none_tabs"] if mode == "extra_coords" else px in none_pix)
+            out.append(None if none else float(slope * p[px] + icpt) * u.m)
+        return out
+
+    if mode == "extra_coords":
+        pts = [tab_part(p) for p in pix_pts]
+        touched = {tabs[t][0] for t in range(len(tabs)) if not (case.get("all_none") or t in case["none_tabs"])}
+    elif mode == "combined_wcs" and tabs:
+        pts = [wcs_part(w) + tab_part(p) for w, p in zip(wcs_world, pix_pts)]
+        touched = {nd - 1 - px for px in range(nd) if px not in none_pix}
     else:
-        pts = [[None if i in none_w else float(x) * u.m for i, x in enumerate(w)] for w in world_pts]
+        pts = [wcs_part(w) for w in wcs_world]
+        touched = {nd - 1 - px for px in range(nd) if px not in none_pix}
     kw = {}
-    if case["wcses"] == "list":
+    if mode == "list":
         kw["wcses"] = [c.wcs for c in cubes]
-    elif case["wcses"] is not None:
-        kw["wcses"] = case["wcses"]
+    elif mode == "foreign":
+        kw["wcses"] = [HighLevelWCSWrapper(make_probe(case["A"], _cube_b(case, k), tw=list(range(nd)), tp=list(range(nd))))
+                       for k in range(len(cubes))]
+    elif mode is not None:
+        kw["wcses"] = mode
     why = []
     item, r = None, None
     try:
-        item = seq._get_sequence_crop_item(*pts, crop_by_values=not use_objects, **{k: v for k, v in kw.items()})
+        item = seq._get_sequence_crop_item(*pts, crop_by_values=not use_objects, **kw)
         r = seq.crop(*pts, **kw) if use_objects else seq.crop_by_values(*pts, **kw)
         exc = None
     except Exception as e:  # noqa
@@ -106,11 +158,10 @@ def run(case):
         per_axis = {a: [] for a in range(nd)}
         for p in pix_pts:
             for px in range(nd):
-                pos = p[px] - case["shifts"][k][px]            # pixel position of the point in cube k
                 a = nd - 1 - px
-                grp = next(g for g in case["groups"] if px in g)
-                if grp in case["none_groups"]:
+                if a not in touched:
                     continue
+                pos = p[px] - case["shifts"][k][px]            # pixel position of the point in cube k
                 per_axis[a].append(int(np.floor(float(pos) + 0.5)))
         for a in range(nd):
             lo, hi = (0, shape[a]) if not per_axis[a] else (max(min(per_axis[a]), 0), min(max(per_axis[a]) + 1, shape[a]))
@@ -131,14 +182,14 @@ def run(case):
                     why.append(f"cube {k} of the result is not the source cube sliced with the common box")
                     break
     return {"out": out, "oracle": {"ok": not why, "why": "; ".join(why[:3]), "finding": None},
-            "world": [[None if i in none_w else [Fr(float(x)).numerator, Fr(float(x)).denominator] for i, x in enumerate(w)] for w in world_pts]}
+            "world": [[None if i in none_w else [Fr(float(x)).numerator, Fr(float(x)).denominator] for i, x in enumerate(w)] for w in wcs_world]}
 
 
 def coq_case(case, res):
     o = res["out"]
     nd = len(case["shape"])
-    if case["wcses"] == "combined_wcs" and False:
-        pass
+    if case.get("tabs"):
+        return "mk [] 0%nat [] (OItem [ISlice (Some 0) (Some 0) None])"        # extra coords: left to the direct oracle
     cubes = []
     for k in range(len(case["shifts"])):
         e = c14._coq_expr({"k": "lin", "A": case["A"], "b": _cube_b(case, k), "shape": None, "bounds": None,
